@@ -129,8 +129,17 @@ def gen_case(seed, tier, index=0):
                 c['repeat'] = c.get('repeat') or {'interval': rr.choice([3, 6]), 'retries': None}
                 plan[c['name']]['default']['dur'] = rr.choice([120.0, 300.0])
                 plan[c['name']].setdefault('execs', [{'exit': 'Success'} for _ in range(3)])
-    return {'comps': comps, 'plan': plan, 'hook': {}, 'knobs': common.knobs_from(rr, tier),
-            'sched_seed': rr.getrandbits(48), 'listdir_errors': windows}
+    knobs = common.knobs_from(rr, tier)
+    sched_seed = rr.getrandbits(48)
+    if rr.random() < 0.12:
+        # a slow observer: the monitor thread of the repeating engine is held up now and then in the middle of an
+        # iteration (between deciding to run and launching), while timers and notifications go on
+        knobs['slow_thread'] = ['(EngineCore)', rr.choice([0.002, 0.01, 0.03])]
+        knobs['trace'] = rr.choice(['call', 'line'])
+        if rr.random() < 0.6 and 'kill-after-producers-done-delay' not in obs['variables']:
+            obs['variables']['kill-after-producers-done-delay'] = str(rr.choice([3, 11, 40]))
+    return {'comps': comps, 'plan': plan, 'hook': {}, 'knobs': knobs,
+            'sched_seed': sched_seed, 'listdir_errors': windows}
 
 
 def shrink_candidates(case):
@@ -314,11 +323,15 @@ def run_case(case, schedule, opts):
                       {'launches_after': len(later)})
             if not stopped:
                 V('c:observer-never-stops', {'notified_at': notif[0][1], 'now': K.clock})
-        # A launch after the engine reported dead (an iteration that was already in flight when the kill or the kill
-        # delay landed) is counted, not judged: the engine's stop is documented as soft and the statement bounds
-        # the number of further attempts, it does not forbid the in-flight one.
+        # A launch after the engine reported dead and the stage ended on that report (an iteration that was already in
+        # flight when the kill or the kill delay landed): "stops" is observed through isAlive()/exitReason(), so an
+        # engine that said it had exited and then runs a task has not stopped. (Until fix 53 this was only counted,
+        # on the argument that the stop is documented as soft; the soft stop lets the monitor finish *before* the
+        # engine reports its exit, it does not let a dead engine come back.)
         if not alive_at_stage_end and [e for e in o_launch if e[1] > t_stage_end + 1e-6]:
             REC.count('probe.launch_after_engine_reported_dead')
+            V('c:launch-after-the-engine-reported-its-exit', {'stage_end': t_stage_end,
+                                                              'launches': [round(e[1], 3) for e in o_launch if e[1] > t_stage_end + 1e-6][:4]})
     elif stop is not None:
         # liveness: the observer (and hence the stage) must stop within the bound once producers are done
         # only C13's business once the precondition holds (all producers finished => the observer was notified);
